@@ -37,7 +37,7 @@ func init() {
 	}
 	realComponents["C04"] = []string{"io.DataInputX (buffer mode and NewDataInputNet mode)", "value.ReadValue (21 tags)", "pack.ReadPack (all registered packs)", "SM pack Read methods", "step.ReadStep", "service.TxRecord.ToObject", "hmap.IntIntMap.ToObject", "list.IntList/StringList/LongList Read"}
 	stubComponents["C04"] = []string{"net.Conn byte source (simnet pipe: seeded fragmentation, EOF or reset at the truncation offset)"}
-	probesFor["C04"] = []string{"roundtrip_equal", "read_fragmented", "unknown_tag_hit", "trunc_panicked", "overwrite_panicked", "overwrite_decoded"}
+	probesFor["C04"] = []string{"roundtrip_equal", "roundtrip_equal_fragmented", "history_independent", "read_fragmented", "unknown_tag_hit", "trunc_panicked", "overwrite_panicked", "overwrite_decoded"}
 	register(&Scenario{Prop: "C04", Name: "decode", MaxSteps: 50000000, Body: c04Body, After: c04After, StepcapIsViolation: true})
 }
 
